@@ -497,6 +497,15 @@ def check_scenario(sc, obs, add):
                 break
             if op['op'] in ('imap', 'imap_unordered') and op.get('consume', 'all') != 'all' and op.get('abandon') != 'close':
                 lazy_open = True
+    # operations that pass their own function objects (groups of operations share theirs): what runs for an operation is what it passed
+    for c in obs.get('calls', []):
+        # (tasks: a deferred worker_exit of workers that are being retired is theirs, whichever call it runs during)
+        if len(c) > 13 and c[13] is not None and c[0] < len(sc['ops']) and c[1] == 'task':
+            want = sc['ops'][c[0]].get('func_group')
+            if want is not None and want != c[13]:
+                for p in ('C01', 'C02', 'C10', 'C11', 'C13'):
+                    add(p, 'runs_the_functions_it_was_given', {'op': c[0], 'kind': c[1], 'functions_of_group': c[13], 'the_call_passed_group': want})
+                break
     # worker_state is ONE object per instance: the k-th call an instance makes (init, tasks, exit, over all the calls it serves) is the
     # k-th call its state object sees
     seen = {}
